@@ -169,6 +169,13 @@ def check_C04(run):
              acts=['write', 'delete', 'close_active', 'restore_active', 'dump_idx', 'force_update'], nkeys=1,
              hcfgs=[dict(ks=4, bloom='small', group=2, rt='mt', wait=False), dict(ks=8, bloom='off', group=3, rt='ct', wait=False)],
              sample=(1, 20) if q else (1, 2)),
+        # every sequence of six calls among write / close / off-load / restore on one key, with bloom filters on: an index
+        # that goes to disk, loses its filter buffer, comes back to memory and is dumped again
+        dict(name='offload-life', consts=dict(Keys='{1}', MaxTs='1', OffloadLevels='{0, 1}'), genlen=6,
+             acts=['write', 'close_active', 'offload', 'restore_active'], nkeys=1,
+             hcfgs=[dict(ks=4, bloom='small', group=2, rt='mt', wait=True), dict(ks=8, bloom='default', group=8, rt='ct', wait=True),
+                    dict(ks=4, bloom='odd', group=3, rt='mt', wait=True), dict(ks=32, bloom='tiny', group=2, rt='mt', wait=True)],
+             sample=(1, 1)),
         # three keys: a blob whose key range encloses, or lies inside, or beside the range of the blobs closed before
         # it (what the merged filters of the closed-blob container have to cope with); small groups so that the
         # merged filters are consulted
@@ -181,7 +188,28 @@ def check_C04(run):
              acts=['write', 'delete'] + LIFE_ALL, preds=('always', 'never', 'ifactive'), nkeys=2,
              simulate=300 if q else 6000, workers=1 if q else 8),
     ]
-    return store_check(run, mc, suites)
+
+    def filter_transitions(run, eng):
+        # one behaviour per transition of the filter-hierarchy model (GenFilters: writes, close / create / restore of the
+        # active blob, off-loading): afterwards every written key must still be found by every query
+        for name, consts, keep in [('edges-g2', dict(KeysF='{1, 2}', NBits='4', GroupSize='2', MaxBlobs='4', Level='1', OffLevels='{0, 1, 2}'), (1, 150) if q else (1, 6)),
+                                   ('edges-g3', dict(KeysF='{1, 2}', NBits='4', GroupSize='3', MaxBlobs='4', Level='1', OffLevels='{1}'), (1, 150) if q else (1, 6))]:
+            c = dict(consts, SampleKeep=str(keep[0]), SampleMod=str(keep[1]), Seed=str(run.seed))
+            text = store.cfg_text('GSpec', c, ['NoFalseNegative'], 'VIEW GView\nCONSTRAINT FBound\nACTION_CONSTRAINT EmitEdge\n')
+            r = run.tlc('GenFilters', text, name, workers=8, timeout=3000)
+            eng.mc_states += r['distinct']
+            eng.mc_transitions += r['generated']
+            if not r['ok']:
+                raise ToolError('TLC failed in %s' % name)
+            g = int(consts['GroupSize'])
+            hcg = [dict(ks=4, bloom='small', group=g, rt='mt', wait=True), dict(ks=8, bloom='tiny', group=g, rt='ct', wait=True),
+                   dict(ks=4, bloom='default', group=g, rt='mt', wait=True), dict(ks=32, bloom='odd', group=g, rt='mt', wait=True)]
+            eng.extra_args = ['--probe-written']
+            mm = eng.replay(r['out'], hcg, 2, tag='-' + name)
+            eng.extra_args = []
+            eng.judge(mm)
+            os.remove(r['out'])
+    return store_check(run, mc, suites, extra=filter_transitions)
 
 
 WORKER_CFG = ('SPECIFICATION TraceSpec\nCONSTANTS\n NBlobs = 2\n MaxReq = 0\n RearmOnBusy = TRUE\n ResetBeforeProcess = TRUE\n'
